@@ -5,6 +5,7 @@ import Driver.Mem
 import Driver.Ledger
 import Driver.MTProto
 import Driver.Train
+import Driver.Cli
 
 def main (args : List String) : IO UInt32 := do
   match args with
@@ -15,4 +16,5 @@ def main (args : List String) : IO UInt32 := do
   | ["ledger"] => Driver.Ledger.main; return 0
   | ["mtproto"] => Driver.MTProto.main; return 0
   | ["train"] => Driver.Train.main; return 0
+  | ["cli"] => Driver.Cli.main; return 0
   | _ => IO.eprintln "usage: zvdriver <model>"; return 2
